@@ -218,7 +218,10 @@ def check(run, project):
     # handler re-raises in strict mode (else a region is skipped, its bytes appear in no event, and the decode still succeeds)
     from ..report import RuleView as _RVm
     from . import c07 as _c07
-    _c07.check(_RVm(run, "NI-1", "B9"), project)
+    try:
+        _c07.check(_RVm(run, "NI-1", "B9"), project)
+    except AnalysisError as ex:
+        run.info(f"B9: the mode tests could not be followed ({ex}); not judged here (C07 reports it)")
     b1(run, project, roles)
     primitive_event_once(run, roles, "B3")
     b2_b3(run, project)
